@@ -711,15 +711,19 @@ func checkAbs(c AbsCase) vk.Verdict {
 	return v
 }
 
-var propAbs = vk.Register(&vk.Prop[AbsCase]{Property: property, Name: "absolute", Check: checkAbs, Quick: 6, Thorough: 24,
+var propAbs = vk.Register(&vk.Prop[AbsCase]{Property: property, Name: "absolute", Check: checkAbs, Quick: 8, Thorough: 24,
 	Gen: func(t *rapid.T) AbsCase {
 		c := AbsCase{API: rapid.SampledFrom([]string{"middleware", "store"}).Draw(t, "api")}
-		n := rapid.IntRange(3, 6).Draw(t, "n")
+		n := rapid.IntRange(4, 6).Draw(t, "n")
 		for i := 0; i < n; i++ {
 			st := AbsStep{Wait: rapid.SampledFrom([]int{1, 1, 2}).Draw(t, "wait")}
 			k := rapid.IntRange(0, 2).Draw(t, "nops")
 			for j := 0; j < k; j++ {
-				st.Ops = append(st.Ops, rapid.SampledFrom([]string{"set", "set", "reget", "reset", "regen"}).Draw(t, "op"))
+				pool := []string{"set", "set", "reset", "regen"}
+				if j == 0 {
+					pool = []string{"set", "reget", "reget", "reset", "regen"} // reget only counts as the first operation
+				}
+				st.Ops = append(st.Ops, rapid.SampledFrom(pool).Draw(t, "op"))
 			}
 			c.Steps = append(c.Steps, st)
 		}
